@@ -6,16 +6,15 @@
   `create_attribute_response`.
 
   Strings are an arbitrary type `α` with decidable equality.  What the code does with a `str`
-  is a parameter record `StrOps`: `lower` (`str.lower`), `truthy` (`bool(s)`), `sub v s`
-  (`v in s` for two `str`), `chars` (iteration over a `str`), `empty` (`""`).  Compiled regular
+  is a parameter record `StrOps`: `lower` (`str.lower`), `truthy` (`bool(s)`), `empty` (`""`).  Compiled regular
   expressions are an arbitrary type `ρ`; `M r v` is `bool(r.match(v))` (supplied per case by the
   harness from the real `re`).  The driver instantiates `α := String`, `ρ := Nat`.
 
   The model mirrors the code AS IT IS (after the `fix:` commits), quirks included:
-    * a `str`-valued identity attribute is handled as a sequence by `_filter_values`
-      (substring test) and by `list.extend` (its characters are appended);
-    * a value listed twice by one RequestedAttribute is put into the result twice;
-    * `res[_fn].extend` on a `str` raises `AttributeError`; an `AttributeValue` without text raises
+    * a `str`-valued identity attribute is ONE value (`_filter_values` wraps it, fix cea74591); a value
+      listed twice by one RequestedAttribute is kept once; an unrestricted `str` passes through as a `str`;
+    * `res[_fn].extend` on such a stored `str` (the same scalar attribute requested a second time)
+      still raises `AttributeError`; an `AttributeValue` without text raises
       `KeyError`; `post_entity_categories` raises on a required attribute without friendly name
       and without a map entry (all three: `Err.crash`);
     * `for … else` in `post_entity_categories` always adds the key `""`;
@@ -46,8 +45,6 @@ deriving Repr, DecidableEq
 structure StrOps (α : Type) where
   lower : α → α
   truthy : α → Bool
-  sub : α → α → Bool
-  chars : α → List α
   empty : α
 
 /-- `md:RequestedAttribute` as the dictionary `mdstore` hands out. -/
@@ -104,36 +101,30 @@ def matchAttrName (S : StrOps α) (acs : List (Conv α)) (r : ReqAttr α) (ava :
   | some k => some k
   | none => (matchKey S (S.lower r.name) ava).filter S.truthy
 
-/-- Python `v in vals`: list membership, or the substring test when `vals` is a `str`. -/
-def Val.contains (S : StrOps α) : Val α → α → Bool
-  | .scalar s, v => S.sub v s
-  | .list l, v => decide (v ∈ l)
-
-/-- Python iteration over `vals`. -/
-def Val.iter (S : StrOps α) : Val α → List α
-  | .scalar s => S.chars s
-  | .list l => l
-
-/-- `_filter_values(vals, vlist)` without the `must` test. -/
-def filterValues (S : StrOps α) (vals : Val α) (vlist : List α) : Val α :=
-  if vlist.isEmpty then vals else .list (vlist.filter (vals.contains S))
-
-/-- `old.extend(v for v in xs if v not in old)` — the generator sees what was appended before. -/
+/-- `old.extend(v for v in xs if v not in old)` — the generator sees what was appended before;
+    also the loop `for val in vlist: if … and val not in res: res.append(val)` started from `[]`. -/
 def extendNew (old : List α) : List α → List α
   | [] => old
   | v :: vs => if v ∈ old then extendNew old vs else extendNew (old ++ [v]) vs
 
+/-- `_filter_values(vals, vlist)` without the `must` test: no listed value = any value (the
+    attribute value passes through as it is, `str` or list); otherwise the listed values the
+    user holds, each once (a `str` is one value). -/
+def filterValues (vals : Val α) (vlist : List α) : Val α :=
+  if vlist.isEmpty then vals
+  else .list (extendNew [] (vlist.filter (fun v => decide (v ∈ vals.values))))
+
 /-- `_apply_attr_value_restrictions(attr, res, must)` for the matched key `fn`. -/
-def applyRestr (S : StrOps α) (ava : Ava α) (r : ReqAttr α) (fn : α) (must : Bool) (res : Ava α) :
+def applyRestr (ava : Ava α) (r : ReqAttr α) (fn : α) (must : Bool) (res : Ava α) :
     Except Err (Ava α) :=
   if r.noText then .error .crash else
   match dget ava fn with
   | none => .error .crash                      -- unreachable: `fn` is a key of `ava`
   | some cur =>
-    let fv := filterValues S cur r.values
+    let fv := filterValues cur r.values
     let stored : Except Err (Ava α) :=
       match dget res fn with
-      | some (.list old) => .ok (dset res fn (.list (extendNew old (fv.iter S))))
+      | some (.list old) => .ok (dset res fn (.list (extendNew old fv.values)))
       | some (.scalar _) => .error .crash      -- 'str' object has no attribute 'extend'
       | none => .ok (dset res fn fv)
     match stored with
@@ -145,7 +136,7 @@ def applyRestr (S : StrOps α) (ava : Ava α) (r : ReqAttr α) (fn : α) (must :
 def foaStep (S : StrOps α) (acs : List (Conv α)) (ava : Ava α) (must failOn : Bool) (res : Ava α)
     (r : ReqAttr α) : Except Err (Ava α) :=
   match matchAttrName S acs r ava with
-  | some fn => applyRestr S ava r fn must res
+  | some fn => applyRestr ava r fn must res
   | none => if must && failOn then .error .missing else .ok res
 
 /-- The two loops, left to right, stopping at the first exception. -/
@@ -277,10 +268,13 @@ structure Section (α ρ : Type) where
 /-- The sections: who → `None` | section. -/
 abbrev Sections (α ρ : Type) := List (α × Option (Section α ρ))
 
+/-- `self._restrictions.get(who)`: an absent key and a `None` value look the same. -/
+def secOf {ρ : Type} (secs : Sections α ρ) (k : α) : Option (Section α ρ) := (dget secs k).join
+
 /-- The section `Policy.get` reads: requester, else registration authority, else
     `get("default") or get("")`; `none` = `{}` (every lookup yields its default). -/
 def applicable {ρ : Type} (secs : Sections α ρ) (dflt empty : α) (sp : α) (ra : Option α) : Option (Section α ρ) :=
-  let g := fun k => (dget secs k).join
+  let g := secOf secs
   match g sp with
   | some s => some s
   | none =>
@@ -383,9 +377,11 @@ def authnRelease {ρ : Type} (c : Ctx α ρ) (identity : Ava α) (required optio
     (_callerBestEffort : Bool) : Release α :=
   setupAssertion c identity required optional subj true
 
-/-- `Server.create_attribute_response` with a policy: `MissingValue` propagates to the caller. -/
+/-- `Server.create_attribute_response` with a policy: `MissingValue` propagates to the caller; an
+    empty identity skips the `if identity:` block and the call dies on the unbound `assertion`. -/
 def attributeRelease {ρ : Type} (c : Ctx α ρ) (identity : Ava α) (required optional subj : List (ReqAttr α)) :
     Release α :=
+  if identity.isEmpty then .raised .crash else
   match policyRestrict c identity required optional subj with
   | .ok ava => .assertion (selfAfter identity ava)
   | .error e => .raised e
